@@ -128,7 +128,11 @@ def case_parse(acc, prefix, word, encoded):
             problems.append("fragment %r != %r" % (obs["fragment"], frag))
         if ra and ra["port"] != "lenient":
             for k in ("user", "password", "host", "port"):
-                if obs_net[k] != ra[k]:
+                got_k, want_k = obs_net[k], ra[k]
+                if k == "host":
+                    # the statement does not say whether an empty host reads as '' or None
+                    got_k, want_k = got_k or None, want_k or None
+                if got_k != want_k:
                     problems.append("%s %r != %r" % (k, obs_net[k], ra[k]))
     else:
         if ra and ra["host"] is None and (ra["user"] is not None or ra["password"] is not None or ra["port"] is not None):
